@@ -122,6 +122,21 @@ Proof.
   all: cbn in E; discriminate.
 Qed.
 
+(* operands: a tree, or Unsafe(tree) *)
+Definition arel (v1 v2 : value) : Prop :=
+  vrel v1 v2 \/ exists a b, v1 = VUnsafe a /\ v2 = VUnsafe b /\ vrel a b.
+Lemma arel_nil_iff v1 v2 : arel v1 v2 -> (v1 = VNil <-> v2 = VNil).
+Proof.
+  intros [H | (a & b & -> & -> & _)]; [|split; discriminate].
+  inversion H; subst; try (split; discriminate).
+  destruct H0 as (_ & _ & [-> | (_ & _ & Hm)]); [tauto|]. destruct v1, v2; try contradiction; split; discriminate.
+Qed.
+Lemma arel_names v1 v2 : arel v1 v2 -> type_name v1 = type_name v2 /\ is_string_kind v1 = is_string_kind v2.
+Proof.
+  intros [H | (a & b & -> & -> & _)]; [|split; reflexivity].
+  destruct (vrel_tinfo _ _ H) as (_ & E1 & _ & _ & _ & E2 & _). split; assumption.
+Qed.
+
 (* a leaf, or an interface slot holding one: what can be printed under a safe override *)
 Definition lfs (v : value) : bool :=
   leafish v || match v with VIface _ (Some d) => leafish d | _ => false end.
@@ -135,7 +150,6 @@ Definition orel {A} (R : A -> A -> Prop) (a b : option A) : Prop :=
 (* ---------- the relation on printer states ---------- *)
 Record NB (s1 s2 : pst) : Prop := mkNB {
   nb_ovr : povr s1 = povr s2;
-  nb_nou : povr s1 <> OvrUnsafe;
   nb_sm : povr s1 = OvrSafe -> lmode (pl s1) <> MUnsafe;
   nb_mode : lmode (pl s1) = lmode (pl s2);
   nb_pf : pf s1 = pf s2;
@@ -347,8 +361,6 @@ Qed.
 Lemma set_ovr_id s : set_ovr s (povr s) = s.
 Proof. destruct s; reflexivity. Qed.
 
-Lemma NB_mode_unsafe_nosafe s1 s2 : NB s1 s2 -> povr s1 <> OvrSafe -> povr s1 = NoOvr.
-Proof. intros N H. pose proof (nb_nou _ _ N). destruct (povr s1); congruence. Qed.
 
 (* defer p.startUnsafe().restore() around "f := p.fmt; write what g(f) asks for" *)
 Definition ubody (g : fst_ -> option (list wop)) : M unit :=
@@ -400,7 +412,7 @@ Proof.
         cbn [forallb] in Hw. apply andb_prop in Hw. destruct Hw. apply ds_same; auto. }
       apply Hd, ops_of_wr.
   - (* no override: SetMode(unsafe), the two related segments, SetMode(previous) *)
-    assert (povr s1 = NoOvr) as Hv by (apply (NB_mode_unsafe_nosafe s1 s2 N); intros X; rewrite X in Ev; discriminate).
+    assert (povr s1 <> OvrSafe) as Hv by (intros X; rewrite X in Ev; discriminate).
     set (u1 := lset (pl s1) (OMode MUnsafe)). set (u2 := lset (pl s2) (OMode MUnsafe)).
     destruct (lwrites_log (ops_of w1) u1 (ops_of_wr w1)) as [L1 M1].
     destruct (lwrites_log (ops_of w2) u2 (ops_of_wr w2)) as [L2 M2].
@@ -435,7 +447,7 @@ Proof. exact (ubody_rel g1 g2). Qed.
 (* ---------- related calls of the evaluator ---------- *)
 Definition crel (c1 c2 : call) : Prop :=
   match c1, c2 with
-  | CPrintArg v1 b1, CPrintArg v2 b2 => b1 = b2 /\ vrel v1 v2
+  | CPrintArg v1 b1, CPrintArg v2 b2 => b1 = b2 /\ arel v1 v2
   | CPrintValue v1 b1 d1 ci1, CPrintValue v2 b2 d2 ci2 => b1 = b2 /\ d1 = d2 /\ ci1 = ci2 /\ vrel v1 v2
   | CBadVerb b1, CBadVerb b2 => b1 = b2
   | CHandleMethods b1, CHandleMethods b2 => b1 = b2
@@ -637,7 +649,7 @@ Section Rec.
         eapply JS_bind_k; [apply J_JS, J_w1 | apply kovr_w1 | intros _ _ _].
         eapply JS_bind_k; [apply J_JS, J_wbyte | apply kovr_wbyte | intros _ _ _].
         eapply JS_bind; [|intros; now apply J_ret].
-        eapply JS_weaken; [|apply (Hrec (CPrintArg a1 118) (CPrintArg a2 118)); split; [reflexivity | exact Ha]].
+        eapply JS_weaken; [|apply (Hrec (CPrintArg a1 118) (CPrintArg a2 118)); split; [reflexivity | left; exact Ha]].
         intros ? ? H. exact H. }
       apply Hk; auto. intros Ho. destruct (S Ho) as (E & L & _). rewrite Ea, Eb in E. rewrite Ea in L. split; [now injection E | exact L].
     - (* the operand as a reflect.Value *)
@@ -722,23 +734,24 @@ Section Rec.
     else ret false.
 
   Lemma handleMethods_user_run verb s t i r x rest :
-    parg s = Some (VUser t i false r (ARet x :: rest)) -> wrapErrs s = false -> povr s <> OvrUnsafe ->
+    parg s = Some (VUser t i false r (ARet x :: rest)) -> wrapErrs s = false ->
     iFormatter i = false -> iSafeFormatter i = false -> iSafeMessager i = false -> (iError i = true -> hook env = None) ->
     handleMethods rec env verb s =
     if erroring s then (ROk false, s)
     else if verb =? 119 then hm_bad verb s else user_std (VUser t i false r (ARet x :: rest)) i x verb s.
   Proof.
-    intros Ea Hw Ho F1 F2 F3 Hh. unfold handleMethods, bind at 1, Printer.get. cbn iota beta.
+    intros Ea Hw F1 F2 F3 Hh. unfold handleMethods, bind at 1, Printer.get. cbn iota beta.
     destruct (erroring s); [reflexivity|]. rewrite Ea, Hw. cbn [negb orb]. rewrite Bool.orb_true_r, Bool.andb_true_r.
     destruct (verb =? 119); [reflexivity|].
     unfold bind at 1, ret at 1. cbn iota beta.
-    assert (negb (ovr_eqb (povr s) OvrUnsafe) = true) as -> by (destruct (povr s); try reflexivity; congruence).
     rewrite F1, F2, F3.
     assert (forall std : M bool, (if iError i then match hook env with
               | Some h => catch_panic rec (VUser t i false r (ARet x :: rest)) verb "SafeFormatter" (rec (CActs (VUser t i false r (ARet x :: rest)) verb h) ;;; ret tt) ;;; ret true
               | None => std end else std) = std) as Hstd.
     { intros std. destruct (iError i); [rewrite (Hh eq_refl)|]; reflexivity. }
-    rewrite Hstd. unfold user_std. apply bind_cong_r. intros f s0.
+    rewrite Hstd.
+    match goal with |- (if ?c then ?m else ?m) s = _ => replace (if c then m else m) with m by (destruct c; reflexivity) end.
+    unfold user_std. apply bind_cong_r. intros f s0.
     destruct (sharpV (fl f)).
     - destruct (iGoStringer i); [|reflexivity]. apply bind_cong_l.
       apply catch_panic_ext. intros s1. apply bracket_ext. intros s2. reflexivity.
@@ -778,10 +791,9 @@ Section Rec.
         inversion Ha; subst; try discriminate.
         { destruct H as (L1 & _). destruct a1; discriminate. }
         match goal with Hx : _ = _ \/ srel _ _ |- _ => rename Hx into Hxs end.
-        rewrite (handleMethods_user_run verb s1 _ _ _ _ _ E1 (nb_nw _ _ N) (nb_nou _ _ N)) by (try assumption; intros Hi; apply Hhk; auto).
-        assert (povr s2 <> OvrUnsafe) as Ho2 by (rewrite <- (nb_ovr _ _ N); apply N).
+        rewrite (handleMethods_user_run verb s1 _ _ _ _ _ E1 (nb_nw _ _ N)) by (try assumption; intros Hi; apply Hhk; auto).
         assert (wrapErrs s2 = false) as Hw2 by (rewrite <- (nb_we _ _ N); apply N).
-        rewrite (handleMethods_user_run verb s2 _ _ _ _ _ E2 Hw2 Ho2) by (try assumption; intros Hi; apply Hhk; auto).
+        rewrite (handleMethods_user_run verb s2 _ _ _ _ _ E2 Hw2) by (try assumption; intros Hi; apply Hhk; auto).
         rewrite <- (nb_err _ _ N).
         destruct (erroring s1); [refine (conj eq_refl (conj N (conj S _))); apply seg_refl|].
         destruct (verb =? 119); [apply J_hm_bad; auto|].
@@ -1168,13 +1180,13 @@ Section Rec.
     - unfold ret. cbn iota beta zeta. destruct (b s) as [o s2]. rewrite restore_state. reflexivity.
   Qed.
 
-  Lemma NB_set_ovr s1 s2 o : NB s1 s2 -> o <> OvrUnsafe -> (o = OvrSafe -> lmode (pl s1) <> MUnsafe) ->
+  Lemma NB_set_ovr s1 s2 o : NB s1 s2 -> (o = OvrSafe -> lmode (pl s1) <> MUnsafe) ->
     NB (set_ovr s1 o) (set_ovr s2 o).
-  Proof. intros [] H1 H2. destruct s1, s2; constructor; cbn in *; auto. Qed.
+  Proof. intros [] H2. destruct s1, s2; constructor; cbn in *; auto. Qed.
 
-  Lemma NB_set_pl_ovr s1 s2 l1 l2 o : NB s1 s2 -> lmode l1 = lmode l2 -> o <> OvrUnsafe -> (o = OvrSafe -> lmode l1 <> MUnsafe) ->
+  Lemma NB_set_pl_ovr s1 s2 l1 l2 o : NB s1 s2 -> lmode l1 = lmode l2 -> (o = OvrSafe -> lmode l1 <> MUnsafe) ->
     NB (set_ovr (set_pl s1 l1) o) (set_ovr (set_pl s2 l2) o).
-  Proof. intros [] H0 H1 H2. destruct s1, s2; constructor; cbn in *; auto. Qed.
+  Proof. intros [] H0 H2. destruct s1, s2; constructor; cbn in *; auto. Qed.
 
   Lemma Jbracket_safe (b1 b2 : M unit) : kovr b1 ->
     JS0 (fun _ _ => True) any b1 b2 -> JS0 (fun _ _ => True) any (bracket start_safe_ovr b1) (bracket start_safe_ovr b2).
@@ -1183,29 +1195,29 @@ Section Rec.
     pose proof (nb_ovr _ _ N) as Eo. rewrite <- Eo, <- (nb_mode _ _ N).
     set (a1 := if ovr_eqb (povr s1) NoOvr then set_ovr (set_pl s1 (lset (pl s1) (OMode MSafe))) OvrSafe else s1).
     set (a2 := if ovr_eqb (povr s1) NoOvr then set_ovr (set_pl s2 (lset (pl s2) (OMode MSafe))) OvrSafe else s2).
-    assert (NB a1 a2 /\ povr a1 = OvrSafe /\ seg s1 a1 s2 a2) as (Na & Oa & Ga).
+    assert (NB a1 a2 /\ (povr s1 <> OvrUnsafe -> povr a1 = OvrSafe) /\ seg s1 a1 s2 a2) as (Na & Oa & Ga).
     { unfold a1, a2. destruct (ovr_eqb (povr s1) NoOvr) eqn:Ev.
       - split; [|split].
-        + apply NB_set_ovr; [|discriminate|].
+        + apply NB_set_ovr; [|].
           * apply NB_set_pl; [exact N | now rewrite !lmode_setmode | intros _; rewrite lmode_setmode; discriminate].
           * intros _. rewrite pl_set_pl, lmode_setmode. discriminate.
-        + destruct s1; reflexivity.
+        + intros _. destruct s1; reflexivity.
         + exists [OMode MSafe], [OMode MSafe].
           assert (forall s l o, pl (set_ovr (set_pl s l) o) = l) as Hp by (intros [] ? ?; reflexivity).
           rewrite !Hp, !rlog_lset. split; [reflexivity|]. split; [reflexivity|]. cbn [rev app]. rewrite lmode_setmode. apply ds_mode. constructor.
       - split; [exact N|]. split; [|apply seg_refl].
-        pose proof (nb_nou _ _ N). destruct (povr s1); try discriminate; congruence. }
+        intros Hnu. destruct (povr s1); try discriminate; congruence. }
     specialize (Hb a1 a2 Na Logic.I). pose proof (Hk a1) as Ek.
     destruct (b1 a1) as [[u1|?| |?] x], (b2 a2) as [[u2|?| |?] y]; try (exact Logic.I || contradiction || (exfalso; assumption)).
     destruct Hb as (_ & Nx & Sx & Gx). cbn [snd] in Ek.
     assert (forall s l o, pl (set_ovr (set_pl s l) o) = l) as Hp by (intros [] ? ?; reflexivity).
     refine (conj Logic.I (conj _ (conj _ _))).
-    - apply NB_set_pl_ovr; [exact Nx | now rewrite !lmode_setmode | apply N |].
+    - apply NB_set_pl_ovr; [exact Nx | now rewrite !lmode_setmode |].
       intros Ho. rewrite lmode_setmode. now apply N.
     - unfold SE. assert (forall s l o, parg (set_ovr (set_pl s l) o) = parg s /\ pval (set_ovr (set_pl s l) o) = pval s /\ povr (set_ovr (set_pl s l) o) = o) as Hf by (intros [] ? ?; auto).
       destruct (Hf x (lset (pl x) (OMode (lmode (pl s1)))) (povr s1)) as (-> & -> & ->).
       destruct (Hf y (lset (pl y) (OMode (lmode (pl s1)))) (povr s1)) as (-> & -> & _).
-      intros Ho. apply Sx. rewrite Ek. exact Oa.
+      intros Ho. apply Sx. rewrite Ek. apply Oa. rewrite Ho. discriminate.
     - eapply seg_trans; [exact Ga|]. eapply seg_trans; [exact Gx|].
       exists [OMode (lmode (pl s1))], [OMode (lmode (pl s1))]. rewrite !Hp, !rlog_lset. split; [reflexivity|]. split; [reflexivity|].
       cbn [rev app]. rewrite lmode_setmode. apply ds_mode. constructor.
@@ -1223,31 +1235,31 @@ Section Rec.
     pose proof (nb_ovr _ _ N) as Eo. rewrite <- Eo, <- (nb_mode _ _ N).
     set (a1 := if ovr_eqb (povr s1) NoOvr then set_ovr (set_pl s1 (lset (pl s1) (OMode MSafe))) OvrSafe else s1).
     set (a2 := if ovr_eqb (povr s1) NoOvr then set_ovr (set_pl s2 (lset (pl s2) (OMode MSafe))) OvrSafe else s2).
-    assert (NB a1 a2 /\ povr a1 = OvrSafe /\ seg s1 a1 s2 a2 /\ SE a1 a2) as (Na & Oa & Ga & Sa).
+    assert (NB a1 a2 /\ (povr s1 <> OvrUnsafe -> povr a1 = OvrSafe) /\ seg s1 a1 s2 a2 /\ SE a1 a2) as (Na & Oa & Ga & Sa).
     { unfold a1, a2. destruct (ovr_eqb (povr s1) NoOvr) eqn:Ev.
       - split; [|split; [|split]].
-        + apply NB_set_ovr; [|discriminate|].
+        + apply NB_set_ovr; [|].
           * apply NB_set_pl; [exact N | now rewrite !lmode_setmode | intros _; rewrite lmode_setmode; discriminate].
           * intros _. rewrite pl_set_pl, lmode_setmode. discriminate.
-        + destruct s1; reflexivity.
+        + intros _. destruct s1; reflexivity.
         + exists [OMode MSafe], [OMode MSafe].
           assert (forall s l o, pl (set_ovr (set_pl s l) o) = l) as Hp by (intros [] ? ?; reflexivity).
           rewrite !Hp, !rlog_lset. split; [reflexivity|]. split; [reflexivity|]. cbn [rev app]. rewrite lmode_setmode. apply ds_mode. constructor.
         + unfold SE, SEu in *. destruct s1, s2; cbn in *. intros _. exact Hu.
       - split; [exact N|]. split; [|split; [apply seg_refl|]].
-        + pose proof (nb_nou _ _ N). destruct (povr s1); try discriminate; congruence.
+        + intros Hnu. destruct (povr s1); try discriminate; congruence.
         + intros _. exact Hu. }
     specialize (Hb a1 a2 Na Sa Logic.I). pose proof (Hk a1) as Ek.
     destruct (b1 a1) as [[u1|?| |?] x], (b2 a2) as [[u2|?| |?] y]; try (exact Logic.I || contradiction || (exfalso; assumption)).
     destruct Hb as (_ & Nx & Sx & Gx). cbn [snd] in Ek.
     assert (forall s l o, pl (set_ovr (set_pl s l) o) = l) as Hp by (intros [] ? ?; reflexivity).
     refine (conj Logic.I (conj _ (conj _ _))).
-    - apply NB_set_pl_ovr; [exact Nx | now rewrite !lmode_setmode | apply N |].
+    - apply NB_set_pl_ovr; [exact Nx | now rewrite !lmode_setmode |].
       intros Ho. rewrite lmode_setmode. now apply N.
     - unfold SE. assert (forall s l o, parg (set_ovr (set_pl s l) o) = parg s /\ pval (set_ovr (set_pl s l) o) = pval s /\ povr (set_ovr (set_pl s l) o) = o) as Hf by (intros [] ? ?; auto).
       destruct (Hf x (lset (pl x) (OMode (lmode (pl s1)))) (povr s1)) as (-> & -> & ->).
       destruct (Hf y (lset (pl y) (OMode (lmode (pl s1)))) (povr s1)) as (-> & -> & _).
-      intros Ho. apply Sx. rewrite Ek. exact Oa.
+      intros Ho. apply Sx. rewrite Ek. apply Oa. rewrite Ho. discriminate.
     - eapply seg_trans; [exact Ga|]. eapply seg_trans; [exact Gx|].
       exists [OMode (lmode (pl s1))], [OMode (lmode (pl s1))]. rewrite !Hp, !rlog_lset. split; [reflexivity|]. split; [reflexivity|].
       cbn [rev app]. rewrite lmode_setmode. apply ds_mode. constructor.
@@ -1425,6 +1437,66 @@ Section Rec.
     - eapply JS0_weaken; [|apply (JprintArg_body v1 v1 verb Hl)]. intros ? ? _ _. split; [reflexivity | now apply lfs_leaf].
   Qed.
 
+  (* ---------- Unsafe(x) as an operand ---------- *)
+  Lemma bracket_unsafe_ovr_run {A} (b : M A) s :
+    bracket start_unsafe_ovr b s =
+    let s0 := if ovr_eqb (povr s) NoOvr then set_ovr (set_pl s (lset (pl s) (OMode MUnsafe))) OvrUnsafe else s in
+    let '(o, s2) := b s0 in (o, set_ovr (set_pl s2 (lset (pl s2) (OMode (lmode (pl s))))) (povr s)).
+  Proof.
+    unfold bracket, start_unsafe_ovr, bind, get_mode, Printer.get.
+    destruct (ovr_eqb (povr s) NoOvr).
+    - rewrite setmode_state. unfold modify, ret. cbn iota beta zeta.
+      destruct (b _) as [o s2]. rewrite restore_state. reflexivity.
+    - unfold ret. cbn iota beta zeta. destruct (b s) as [o s2]. rewrite restore_state. reflexivity.
+  Qed.
+
+  (* defer p.startUnsafeOverride().restore(): inside, every write is unsafe; whatever is known
+     about a safe override outside still holds for the body when the bracket does nothing *)
+  Lemma Jbracket_unsafe0 P (b1 b2 : M unit) : kovr b1 ->
+    JS0 (HS P) any b1 b2 -> JS0 (HS P) any (bracket start_unsafe_ovr b1) (bracket start_unsafe_ovr b2).
+  Proof.
+    intros Hk Hb s1 s2 N Hs. rewrite !bracket_unsafe_ovr_run. cbn zeta.
+    pose proof (nb_ovr _ _ N) as Eo. rewrite <- Eo, <- (nb_mode _ _ N).
+    set (a1 := if ovr_eqb (povr s1) NoOvr then set_ovr (set_pl s1 (lset (pl s1) (OMode MUnsafe))) OvrUnsafe else s1).
+    set (a2 := if ovr_eqb (povr s1) NoOvr then set_ovr (set_pl s2 (lset (pl s2) (OMode MUnsafe))) OvrUnsafe else s2).
+    assert (forall s l o, pl (set_ovr (set_pl s l) o) = l) as Hp by (intros [] ? ?; reflexivity).
+    assert (NB a1 a2 /\ HS P a1 a2 /\ seg s1 a1 s2 a2 /\ (povr s1 = OvrSafe -> povr a1 = OvrSafe)) as (Na & Ha & Ga & Oa).
+    { unfold a1, a2. destruct (ovr_eqb (povr s1) NoOvr) eqn:Ev.
+      - assert (povr s1 = NoOvr) as En by (destruct (povr s1); try discriminate; reflexivity).
+        split; [|split; [|split]].
+        + apply NB_set_ovr; [|discriminate].
+          apply NB_set_pl; [exact N | now rewrite !lmode_setmode | intros X; congruence].
+        + intros X. destruct s1; cbn in X. discriminate.
+        + exists [OMode MUnsafe], [OMode MUnsafe]. rewrite !Hp, !rlog_lset. split; [reflexivity|]. split; [reflexivity|].
+          cbn [rev app]. rewrite lmode_setmode. apply ds_mode. constructor.
+        + intros X. congruence.
+      - split; [exact N|]. split; [exact Hs|]. split; [apply seg_refl | auto]. }
+    specialize (Hb a1 a2 Na Ha). pose proof (Hk a1) as Ek.
+    destruct (b1 a1) as [[u1|?| |?] x], (b2 a2) as [[u2|?| |?] y]; try (exact Logic.I || contradiction || (exfalso; assumption)).
+    destruct Hb as (_ & Nx & Sx & Gx). cbn [snd] in Ek.
+    refine (conj Logic.I (conj _ (conj _ _))).
+    - apply NB_set_pl_ovr; [exact Nx | now rewrite !lmode_setmode |].
+      intros Ho. rewrite lmode_setmode. now apply N.
+    - unfold SE. assert (forall s l o, parg (set_ovr (set_pl s l) o) = parg s /\ pval (set_ovr (set_pl s l) o) = pval s /\ povr (set_ovr (set_pl s l) o) = o) as Hf by (intros [] ? ?; auto).
+      destruct (Hf x (lset (pl x) (OMode (lmode (pl s1)))) (povr s1)) as (-> & -> & ->).
+      destruct (Hf y (lset (pl y) (OMode (lmode (pl s1)))) (povr s1)) as (-> & -> & _).
+      intros Ho. apply Sx. rewrite Ek. now apply Oa.
+    - eapply seg_trans; [exact Ga|]. eapply seg_trans; [exact Gx|].
+      exists [OMode (lmode (pl s1))], [OMode (lmode (pl s1))]. rewrite !Hp, !rlog_lset. split; [reflexivity|]. split; [reflexivity|].
+      cbn [rev app]. rewrite lmode_setmode. apply ds_mode. constructor.
+  Qed.
+
+  Lemma JprintArg_unsafe a b verb : vrel a b ->
+    JS0 (HS (VUnsafe a = VUnsafe b /\ lfs (VUnsafe a) = true)) any (printArg rec env (VUnsafe a) verb) (printArg rec env (VUnsafe b) verb).
+  Proof.
+    intros Hv.
+    change (printArg rec env (VUnsafe a) verb) with (bracket start_unsafe_ovr (printArg_body rec env a verb)).
+    change (printArg rec env (VUnsafe b) verb) with (bracket start_unsafe_ovr (printArg_body rec env b verb)).
+    eapply JS0_weaken with (H := HS False); [intros ? ? Hx Ho; destruct (Hx Ho) as [_ L]; discriminate|].
+    apply Jbracket_unsafe0; [apply kovr_keeps, keeps_printArg_body, Hkeeps|].
+    eapply JS0_weaken; [|now apply JprintArg_body]. intros ? ? Hx Ho. destruct (Hx Ho).
+  Qed.
+
   (* one step of the evaluator on related calls *)
   Lemma Jstep c1 c2 : crel c1 c2 ->
     JS (HS (cP c1 c2)) eq
@@ -1442,7 +1514,7 @@ Section Rec.
         | _ => ret RU end).
   Proof.
     intros Hc. destruct c1, c2; cbn [crel] in Hc; try contradiction; cbn [cP].
-    - destruct Hc as [<- Hl]. eapply JS_bind; [|intros; now apply J_ret]. apply JS0_JS. now apply JprintArg.
+    - destruct Hc as [<- [Hl | (a & b & -> & -> & Hl)]]; (eapply JS_bind; [|intros; now apply J_ret]); apply JS0_JS; [now apply JprintArg | now apply JprintArg_unsafe].
     - destruct Hc as (<- & <- & <- & Hl). eapply JS_bind; [|intros; now apply J_ret]. now apply JprintValue.
     - subst. apply J_JS. eapply J_bind; [apply JbadVerb | intros; now apply J_ret].
     - subst. apply J_JS. eapply J_bind; [apply JhandleMethods | intros b ? <-; now apply J_ret].
@@ -1541,17 +1613,17 @@ Section Loop.
   Lemma Forall2_len {A B} (R : A -> B -> Prop) l1 l2 : Forall2 R l1 l2 -> length l1 = length l2.
   Proof. induction 1; cbn; congruence. Qed.
 
-  Lemma lrel_nth a1 : forall a2 n, Forall2 vrel a1 a2 -> vrel (nth n a1 VNil) (nth n a2 VNil).
+  Lemma lrel_nth a1 : forall a2 n, Forall2 arel a1 a2 -> arel (nth n a1 VNil) (nth n a2 VNil).
   Proof.
     induction a1 as [|x r IH]; intros a2 n H; inversion H; subst.
-    - destruct n; apply vr_leaf, lrel_refl; reflexivity.
+    - destruct n; left; apply vr_leaf, lrel_refl; reflexivity.
     - destruct n; cbn [nth]; [assumption | now apply IH].
   Qed.
 
   Lemma NoO_HS P s1 s2 : NoO s1 s2 -> HS P s1 s2.
   Proof. unfold NoO, HS. intros -> X. discriminate. Qed.
 
-  Lemma Jrec_arg a1 a2 n verb : Forall2 vrel a1 a2 ->
+  Lemma Jrec_arg a1 a2 n verb : Forall2 arel a1 a2 ->
     JS NoO any (rec (CPrintArg (nth n a1 VNil) verb)) (rec (CPrintArg (nth n a2 VNil) verb)).
   Proof.
     intros Ha s1 s2 N S Hn.
@@ -1565,7 +1637,7 @@ Section Loop.
   Ltac jb := eapply (JS_bind_o (fun o => o = NoOvr)).
   Ltac jn x := apply (J_JS NoO); exact x.
 
-  Lemma J_format_loop f a1 a2 : no_star f = true -> Forall2 vrel a1 a2 ->
+  Lemma J_format_loop f a1 a2 : no_star f = true -> Forall2 arel a1 a2 ->
     forall fuel i argNum afterIndex,
     JS NoO eq (format_loop fuel rec f a1 i argNum afterIndex) (format_loop fuel rec f a2 i argNum afterIndex).
   Proof.
@@ -1656,7 +1728,7 @@ Section Top.
     apply (JS_set_mode MSafe); auto. intros _. discriminate.
   Qed.
 
-  Lemma J_extra_args a1 : forall a2 first, Forall2 vrel a1 a2 ->
+  Lemma J_extra_args a1 : forall a2 first, Forall2 arel a1 a2 ->
     JS NoO any (extra_args rec first a1) (extra_args rec first a2).
   Proof.
     induction a1 as [|x r IH]; intros a2 first H; inversion H as [|? y ? r2 Hxy Hr]; subst; cbn [extra_args]; [apply J_JS; now apply J_ret|].
@@ -1664,9 +1736,9 @@ Section Top.
     { destruct first; [apply J_JS; now apply J_ret | apply J_JS, J_wstr]. }
     jba; [| | intros _ _ _; now apply IH].
     - destruct (value_eq_nil x) as [-> | Hn1].
-      + assert (y = VNil) as -> by (now apply (vrel_nil_iff _ _ Hxy)). apply J_JS, J_wstr.
-      + assert (y <> VNil) as Hn2 by (intros E; apply Hn1; now apply (vrel_nil_iff _ _ Hxy)).
-        destruct (vrel_tinfo _ _ Hxy) as (_ & Etn & _).
+      + assert (y = VNil) as -> by (now apply (arel_nil_iff _ _ Hxy)). apply J_JS, J_wstr.
+      + assert (y <> VNil) as Hn2 by (intros E; apply Hn1; now apply (arel_nil_iff _ _ Hxy)).
+        destruct (arel_names _ _ Hxy) as (Etn & _).
         assert ((match x with VNil => wstr "<nil>" | _ => w1 (WS (type_name x)) ;;; wbyte 61 ;;; rec (CPrintArg x 118) ;;; ret tt end)
                 = (w1 (WS (type_name x)) ;;; wbyte 61 ;;; rec (CPrintArg x 118) ;;; ret tt)) as -> by (destruct x; congruence).
         assert ((match y with VNil => wstr "<nil>" | _ => w1 (WS (type_name y)) ;;; wbyte 61 ;;; rec (CPrintArg y 118) ;;; ret tt end)
@@ -1686,7 +1758,7 @@ Section Top.
   Lemma Forall2_skipn {A B} (R : A -> B -> Prop) n : forall l1 l2, Forall2 R l1 l2 -> Forall2 R (skipn n l1) (skipn n l2).
   Proof. induction n as [|k IH]; intros l1 l2 H; [exact H|]. inversion H; subst; cbn [skipn]; [constructor | now apply IH]. Qed.
 
-  Lemma J_doPrintf f a1 a2 : no_star f = true -> Forall2 vrel a1 a2 ->
+  Lemma J_doPrintf f a1 a2 : no_star f = true -> Forall2 arel a1 a2 ->
     JS NoO any (doPrintf rec f a1) (doPrintf rec f a2).
   Proof.
     intros Hns Ha. unfold doPrintf. rewrite <- (Forall2_len _ _ _ Ha).
@@ -1704,11 +1776,11 @@ Section Top.
     - apply (J_ret any tt tt Logic.I); auto.
   Qed.
 
-  Lemma J_doPrint_loop a1 : forall a2 argNum prev, Forall2 vrel a1 a2 ->
+  Lemma J_doPrint_loop a1 : forall a2 argNum prev, Forall2 arel a1 a2 ->
     JS NoO any (doPrint_loop rec argNum prev a1) (doPrint_loop rec argNum prev a2).
   Proof.
     induction a1 as [|x r IH]; intros a2 argNum prev H; inversion H as [|? y ? r2 Hxy Hr]; subst; cbn [doPrint_loop]; [apply J_JS; now apply J_ret|].
-    destruct (vrel_tinfo _ _ Hxy) as (_ & _ & _ & _ & _ & Es & _). rewrite <- Es.
+    destruct (arel_names _ _ Hxy) as (_ & Es). rewrite <- Es.
     jba; [| destruct ((0 <? argNum)%nat && negb (is_string_kind x) && negb prev); [apply kovr_wbyte | intros s; reflexivity] | intros _ _ _].
     { destruct ((0 <? argNum)%nat && negb (is_string_kind x) && negb prev); [apply J_JS, J_wbyte | apply J_JS; now apply J_ret]. }
     jba; [| apply Hkrec | intros _ _ _; now apply IH].
@@ -1718,7 +1790,7 @@ Section Top.
     destruct R as (_ & R). exact (conj Logic.I R).
   Qed.
 
-  Lemma J_doPrint a1 a2 : Forall2 vrel a1 a2 -> JS NoO any (doPrint rec a1) (doPrint rec a2).
+  Lemma J_doPrint a1 a2 : Forall2 arel a1 a2 -> JS NoO any (doPrint rec a1) (doPrint rec a2).
   Proof.
     intros Ha. unfold doPrint. jb; [apply J_enter_safe | apply kovr_enter_safe | intros _ _ _]. now apply J_doPrint_loop.
   Qed.
@@ -1732,7 +1804,7 @@ Proof.
 Qed.
 
 Theorem sprintf_tree_dsim fuel env f a1 a2 o1 o2 :
-  osane (orc env) -> (hk = false -> hook env = None) -> no_star f = true -> Forall2 vrel a1 a2 ->
+  osane (orc env) -> (hk = false -> hook env = None) -> no_star f = true -> Forall2 arel a1 a2 ->
   sprintf fuel env f a1 = ROk o1 -> sprintf fuel env f a2 = ROk o2 ->
   exists ops1 ops2 m', o_log o1 = ops1 ++ [OTake] /\ o_log o2 = ops2 ++ [OTake] /\
                        o_bytes o1 = output ops1 /\ o_bytes o2 = output ops2 /\ dsim MUnsafe ops1 ops2 m'.
@@ -1757,7 +1829,7 @@ Qed.
 
 (* Non-interference of Sprintf for leaf operands: Redact() of the two results is byte-identical *)
 Theorem sprintf_tree_noninterference_hk fuel env f a1 a2 o1 o2 :
-  osane (orc env) -> (hk = false -> hook env = None) -> no_star f = true -> Forall2 vrel a1 a2 ->
+  osane (orc env) -> (hk = false -> hook env = None) -> no_star f = true -> Forall2 arel a1 a2 ->
   sprintf fuel env f a1 = ROk o1 -> sprintf fuel env f a2 = ROk o2 ->
   forall ops1 ops2, o_log o1 = ops1 ++ [OTake] -> o_log o2 = ops2 ++ [OTake] ->
   rawok ops1 = true -> ptail_ok_from init ops1 = true -> ptail_ok_from init ops2 = true ->
@@ -1773,7 +1845,7 @@ Print Assumptions sprintf_tree_noninterference_hk.
 
 (* the same for Sprint *)
 Theorem sprint_tree_dsim fuel env a1 a2 o1 o2 :
-  osane (orc env) -> (hk = false -> hook env = None) -> Forall2 vrel a1 a2 ->
+  osane (orc env) -> (hk = false -> hook env = None) -> Forall2 arel a1 a2 ->
   sprint fuel env a1 = ROk o1 -> sprint fuel env a2 = ROk o2 ->
   exists ops1 ops2 m', o_log o1 = ops1 ++ [OTake] /\ o_log o2 = ops2 ++ [OTake] /\
                        o_bytes o1 = output ops1 /\ o_bytes o2 = output ops2 /\ dsim MUnsafe ops1 ops2 m'.
@@ -1797,7 +1869,7 @@ Proof.
 Qed.
 
 Theorem sprint_tree_noninterference_hk fuel env a1 a2 o1 o2 :
-  osane (orc env) -> (hk = false -> hook env = None) -> Forall2 vrel a1 a2 ->
+  osane (orc env) -> (hk = false -> hook env = None) -> Forall2 arel a1 a2 ->
   sprint fuel env a1 = ROk o1 -> sprint fuel env a2 = ROk o2 ->
   forall ops1 ops2, o_log o1 = ops1 ++ [OTake] -> o_log o2 = ops2 ++ [OTake] ->
   rawok ops1 = true -> ptail_ok_from init ops1 = true -> ptail_ok_from init ops2 = true ->
@@ -1811,8 +1883,8 @@ Qed.
 Print Assumptions sprint_tree_noninterference_hk.
 
 (* the leaf-only statements as corollaries *)
-Lemma lrel_vrel_list a1 a2 : Forall2 lrel a1 a2 -> Forall2 vrel a1 a2.
-Proof. induction 1; constructor; [now apply vr_leaf | assumption]. Qed.
+Lemma lrel_vrel_list a1 a2 : Forall2 lrel a1 a2 -> Forall2 arel a1 a2.
+Proof. induction 1; constructor; [left; now apply vr_leaf | assumption]. Qed.
 
 Theorem sprintf_leaf_noninterference_hk fuel env f a1 a2 o1 o2 :
   osane (orc env) -> (hk = false -> hook env = None) -> no_star f = true -> Forall2 lrel a1 a2 ->
@@ -1839,7 +1911,7 @@ Proof. unfold hooked. destruct (hook e); [discriminate | reflexivity]. Qed.
 (* Non-interference of Sprintf / Sprint for operands printed by reflection and by string-returning
    methods: Redact() of the two results is byte-identical *)
 Theorem sprintf_tree_noninterference fuel env f a1 a2 o1 o2 :
-  osane (orc env) -> no_star f = true -> Forall2 (vrel (hooked env)) a1 a2 ->
+  osane (orc env) -> no_star f = true -> Forall2 (arel (hooked env)) a1 a2 ->
   sprintf fuel env f a1 = ROk o1 -> sprintf fuel env f a2 = ROk o2 ->
   forall ops1 ops2, o_log o1 = ops1 ++ [OTake] -> o_log o2 = ops2 ++ [OTake] ->
   rawok ops1 = true -> ptail_ok_from init ops1 = true -> ptail_ok_from init ops2 = true ->
@@ -1847,7 +1919,7 @@ Theorem sprintf_tree_noninterference fuel env f a1 a2 o1 o2 :
 Proof. intros Ho. apply (sprintf_tree_noninterference_hk (hooked env)); [exact Ho | apply hooked_spec]. Qed.
 
 Theorem sprint_tree_noninterference fuel env a1 a2 o1 o2 :
-  osane (orc env) -> Forall2 (vrel (hooked env)) a1 a2 ->
+  osane (orc env) -> Forall2 (arel (hooked env)) a1 a2 ->
   sprint fuel env a1 = ROk o1 -> sprint fuel env a2 = ROk o2 ->
   forall ops1 ops2, o_log o1 = ops1 ++ [OTake] -> o_log o2 = ops2 ++ [OTake] ->
   rawok ops1 = true -> ptail_ok_from init ops1 = true -> ptail_ok_from init ops2 = true ->
